@@ -2,6 +2,7 @@ package main
 
 import (
 	"fmt"
+	"os"
 	"sort"
 	"strings"
 
@@ -40,7 +41,19 @@ var opNames = []string{
 	"reload-partial", "reload-full-A", "reload-full-B", "reload-full-bad", "reload-full-missing",
 	"reload-full-slow-ok", "reload-full-slow-timeout-late-ok", "reload-full-slow-timeout-late-err",
 	"corrupt-served", "stats", "shutdown",
+	// the database reload succeeds, then the removal of the processed signal file fails
+	"reload-cleanupfail-B", "reload-cleanupfail-partial",
 }
+
+// notADir is a regular file used as control directory: removing "<file>/switchdb" fails with ENOTDIR.
+// (The harness binary itself: no temporary file is needed.)
+var notADir = func() string {
+	p, err := os.Executable()
+	if err != nil {
+		panic(err)
+	}
+	return p
+}()
 
 // apply executes one op on the real code; returns false if it is not enabled in this state.
 func (s *sys) apply(op string) bool {
@@ -94,6 +107,21 @@ func (s *sys) apply(op string) bool {
 		s.w.release["slow"] = strings.TrimPrefix(op, "reload-full-slow-timeout-late-")
 		vsched.Quiesce()
 		s.w.release["slow"] = "ok"
+	case strings.HasPrefix(op, "reload-cleanupfail-"):
+		if s.shutdown {
+			return false
+		}
+		s.h.SetControlPathForVerif(notADir)
+		var err error
+		if what := strings.TrimPrefix(op, "reload-cleanupfail-"); what == "partial" {
+			err = s.h.Reload(*dnsserver.NewPartialReloadSignal())
+		} else {
+			err = s.h.Reload(*dnsserver.NewFullReloadSignal(what))
+		}
+		s.h.SetControlPathForVerif("")
+		if err == nil {
+			s.w.bad = append(s.w.bad, "harness: the signal file removal was expected to fail")
+		}
 	case strings.HasPrefix(op, "reload-full-"):
 		if s.shutdown {
 			return false
